@@ -1070,6 +1070,7 @@ func (app *BaseApp) runTx(mode runTxMode, txBytes []byte, tx sdk.Tx) (result sdk
 		// txContext hands out the live stores; a simulation must run its message on a
 		// cache-wrapped copy that is never written, or it would change consensus state.
 		runMsgCtx, _ = app.cacheTxContext(ctx, txBytes)
+		runMsgCtx = runMsgCtx.WithSimulate()
 	}
 	result = app.runMsg(runMsgCtx, msgs, mode, signer)
 	result.GasWanted = gasWanted
